@@ -12,7 +12,7 @@ func init() {
 	register(&PropDef{
 		ID:          "C12",
 		Level:       "other",
-		Explanation: "Retention as decision table plus effect rules: (1) the removal decision touches its inputs only through comparisons; its enumerated paths are evaluated on every order type of definition-exists × (started, completed, canceled) × period{0,+} × (age ? period) × count{0,+} × (rank ? count) and must equal: undefined pipeline → remove; waiting or running → keep; else remove ⇔ (period>0 ∧ age>period) ∨ (count>0 ∧ rank≥count); (2) the rank passed is the index in a fresh copy of the pipeline's list sorted newest-first (comparator orientation checked through the sorter's Less); (3) on the remove edge every path deletes the job from the id index and removes its logs with the job's own id, logs are removed nowhere else, and the file store removes exactly <base>/<jobID>; (4) the persisted snapshot ranges over the id index after the removal loop with no unlock in between and is what is handed to the store; (5) the load loop builds every stored job (a job skipped at start-up would leave the API and the store while its logs stay forever). Decides these shapes, not wall-clock ages or that sort.Sort sorts. (6) the helper that takes the job out of its pipeline's list drops exactly the elements equal to the job (identity comparison, orientation checked on the paths of the loop body).",
+		Explanation: "Retention as decision table plus effect rules: (1) the removal decision touches its inputs only through comparisons; its enumerated paths are evaluated on every order type of definition-exists × (started, completed, canceled) × period{0,+} × (age ? period) × count{0,+} × (rank ? count) and must equal: undefined pipeline → remove (a still running job: either); waiting or running → keep; else remove ⇔ (period>0 ∧ age>period) ∨ (count>0 ∧ rank≥count); (2) the rank passed is the index in a fresh copy of the pipeline's list sorted newest-first (comparator orientation checked through the sorter's Less); (3) on the remove edge every path deletes the job from the id index and removes its logs with the job's own id, logs are removed nowhere else, and the file store removes exactly <base>/<jobID>; (4) the persisted snapshot ranges over the id index after the removal loop with no unlock in between and is what is handed to the store; (5) the load loop builds every stored job (a job skipped at start-up would leave the API and the store while its logs stay forever). Decides these shapes, not wall-clock ages or that sort.Sort sorts. (6) the helper that takes the job out of its pipeline's list drops exactly the elements equal to the job (identity comparison, orientation checked on the paths of the loop body). (7) the reload installs exactly the definitions it was given, so \"no longer defined\" means what the last reload said. A job that is still running when its pipeline is removed may be kept until it ended (required by C01) or purged at once — both satisfy this statement.",
 		Trusted:     []string{"sort.Sort sorts", "time.Since", "os.RemoveAll removes the tree", "C13", "C09 (a save that returns nil has replaced the snapshot: the stored set is the snapshot taken after the removal)"},
 		NotDecided:  []string{"wall-clock ages", "content of the log directories"},
 		Check:       checkC12,
